@@ -1,6 +1,7 @@
 import ChythonModel.Proofs.C14Charge
 import ChythonModel.Proofs.C14Hydrogens
 import ChythonModel.Proofs.C14Implicify
+import ChythonModel.Proofs.C14Lazy
 /-!
 # C14 — normalisation conserves composition, is idempotent and numbering independent
 
@@ -151,6 +152,23 @@ def RulesConserveHydrogens : Prop :=
   ∀ r ∈ allStdRules, ∀ (ri : Nat) (m : Mol) (sssr comps : List (List Nat)) (L : Labels) (st : RState) (m' : Mol),
     m.ids.Nodup → Valence.fixStructure m = some m → Valence.checkValence m = [] → calcLabels m sssr = some L →
     runRule r ri m L comps = some st → recalc st.hs st.mol = some m' → hydrogens m' = hydrogens m
+
+/-! ## the matcher inside the loop -/
+
+/-- **The generator `__standardize` resumes between its mutations is C07's matcher.** On an environment that is not mutated,
+    draining it (`collect` = repeated `resume`, the function `drain` calls) yields exactly `Iso.getMapping`, the model of
+    `_get_mapping` that C07's soundness / completeness theorems are about — same dicts, same order. -/
+theorem lazy_matcher_is_c07_matcher (e : Iso.Env) (res : List Iso.Dict) (h : Iso.getMapping e = some res) :
+    collect e (e.lq.length - 1) (Iso.machineFuel e) (Iso.machineFuel e) ⟨(Iso.roots e).reverse.map (·, 0), [], [], []⟩ = some res :=
+  collect_eq_getMapping e res h
+
+/-- **A rule that has no match is the identity**: if `Iso.getMapping` finds no mapping of the rule's pattern into any
+    connected component, `runRule`'s loop hands back the state it was given — no atom, bond, hydrogen or log entry changes. -/
+theorem unmatched_rule_changes_nothing (r : StdRule) (ri : Nat) (lq : List Iso.Step) (cl : Iso.Closures) (L : Labels)
+    (hlq : lq ≠ []) (comps : List (List Nat)) (st : RState)
+    (h : ∀ cand ∈ comps, Iso.getMapping (envOf ⟨r.toPattern, lq, cl, L, cand⟩ st.mol) = some []) :
+    ruleLoop r ri lq cl L comps st = some st :=
+  ruleLoop_no_match r ri lq cl L hlq comps st h
 
 /-! ## neutralisation -/
 
